@@ -190,12 +190,20 @@ theorem setField_NoPF {rec : URec} {m : Nat} (hrec : Small rec m) (n : Node) (st
     | null => exact NoPF_ok _
     | _ => exact NoPF_err
 
+/-- a member matched case-insensitively is `setField` on the keyword it is routed to, then a pure update of `Extra` -/
+theorem setMember_NoPF {rec : URec} {m : Nat} (hrec : Small rec m) (n : Node) (st : Store) (k : String) (v : Json)
+    (hv : Json.size v ≤ m) : NoPF (setMember rec n st k v) := by
+  unfold setMember
+  split
+  · exact setField_NoPF hrec n st k v hv
+  · exact NoPF_bind (setField_NoPF hrec n st (canonKey k) v hv) fun _ _ => NoPF_ok _
+
 theorem setFields_NoPF {rec : URec} {m : Nat} (hrec : Small rec m) : ∀ (kvs : List (String × Json)) (n : Node) (st : Store),
     (∀ k v, (k, v) ∈ kvs → Json.size v ≤ m) → NoPF (setFields rec kvs n st)
   | [], n, st, _ => NoPF_ok _
   | (k, v) :: rest, n, st, h => by
     rw [setFields]
-    exact NoPF_bind (setField_NoPF hrec n st k v (h k v List.mem_cons_self)) fun _ _ =>
+    exact NoPF_bind (setMember_NoPF hrec n st k v (h k v List.mem_cons_self)) fun _ _ =>
       setFields_NoPF hrec rest _ _ fun k' y hy => h k' y (List.mem_cons_of_mem _ hy)
 
 theorem unmarshalStep_NoPF {rec : URec} {m : Nat} (hrec : Small rec m) (j : Json) (st : Store) (hj : Json.size j ≤ m + 1) :
